@@ -12,9 +12,9 @@ import vlib
 from vlib import hx
 from checks import c02 as rb
 
-FRAMING = {b"content-length", b"transfer-encoding", b"connection", b"keep-alive", b"te", b"trailer", b"upgrade"}
+FRAMING = {b"content-length", b"transfer-encoding"}
 IGNORED_REQ = FRAMING | {b"x-verif-token"}
-IGNORED_RESP = FRAMING | {b"date"}
+IGNORED_RESP = FRAMING | {b"date", b"connection"}
 
 
 def group_headers(headers, ignore):
